@@ -36,21 +36,18 @@ func (err *HTTPError) Is(target error) bool {
 
 func NewHTTPError(resp *http.Response) *HTTPError {
 	defer resp.Body.Close()
-	b, err := io.ReadAll(resp.Body)
-	if err != nil {
-		panic(err)
-	}
+	// the body of an error response comes from the remote: whatever part of
+	// it could be read is reported as is, it must never crash the client
+	b, _ := io.ReadAll(resp.Body)
 	obj := &HTTPError{
 		Code:    resp.StatusCode,
 		RawBody: b,
 	}
 	if s := resp.Header.Get("Content-Type"); s == CTJSON {
-		obj.Body = &payload.Error{}
-		if err := json.Unmarshal(b, obj.Body); err != nil {
-			panic(err)
+		body := &payload.Error{}
+		if err := json.Unmarshal(b, body); err == nil {
+			obj.Body = body
 		}
-	} else {
-		obj.RawBody = b
 	}
 	return obj
 }
